@@ -98,7 +98,7 @@ func NewBoltTransport(
 		return nil, &TransportError{err: err}
 	}
 
-	lastEventID, err := getDBLastEventID(db, bucketName)
+	lastSeq, lastEventID, err := getDBLastEventID(db, bucketName)
 	if err != nil {
 		return nil, &TransportError{err: err}
 	}
@@ -112,11 +112,14 @@ func NewBoltTransport(
 
 		subscribers: NewSubscriberList(1e5),
 		closed:      make(chan struct{}),
+		lastSeq:     lastSeq,
 		lastEventID: lastEventID,
 	}, nil
 }
 
-func getDBLastEventID(db *bolt.DB, bucketName string) (string, error) {
+// getDBLastEventID returns the sequence number and the ID of the last update stored in the database.
+func getDBLastEventID(db *bolt.DB, bucketName string) (uint64, string, error) {
+	lastSeq := uint64(0)
 	lastEventID := EarliestLastEventID
 	err := db.View(func(tx *bolt.Tx) error {
 		b := tx.Bucket([]byte(bucketName))
@@ -124,6 +127,7 @@ func getDBLastEventID(db *bolt.DB, bucketName string) (string, error) {
 			return nil // No data
 		}
 
+		lastSeq = b.Sequence()
 		if k, _ := b.Cursor().Last(); k != nil {
 			lastEventID = string(k[8:])
 		}
@@ -131,10 +135,10 @@ func getDBLastEventID(db *bolt.DB, bucketName string) (string, error) {
 		return nil
 	})
 	if err != nil {
-		return "", fmt.Errorf("unable to get lastEventID from BoltDB: %w", err)
+		return 0, "", fmt.Errorf("unable to get lastEventID from BoltDB: %w", err)
 	}
 
-	return lastEventID, nil
+	return lastSeq, lastEventID, nil
 }
 
 // Dispatch dispatches an update to all subscribers and persists it in Bolt DB.
